@@ -1140,9 +1140,9 @@ fn drive_lengths(sink: &mut Sink, _rng: &mut Rng, n: usize) {
     }
     // 0..=40 namespace / subpath segments (and as many again written as empty or dot pieces), then around 64 / 128 / 256
     let mut counts: Vec<usize> = (0..=40).collect();
-    counts.extend([63, 64, 65, 127, 128, 129]);
+    counts.extend([63, 64, 65, 127, 128, 129, 255, 256, 257]);
     if n >= 2 {
-        counts.extend([255, 256, 257]);
+        counts.extend([300, 511, 512, 513, 1000]);
     }
     let counts2 = counts.clone();
     for n in counts {
@@ -1151,8 +1151,10 @@ fn drive_lengths(sink: &mut Sink, _rng: &mut Rng, n: usize) {
         let noisy = segs.iter().map(|x| format!("{}//./", x)).collect::<String>();
         parse_all(sink, &format!("pkg:t/{}{}n", ns, if n > 0 { "/" } else { "" }));
         parse_all(sink, &format!("pkg:t/n#{}", ns));
-        parse_all(sink, &format!("pkg:t/n#{}", noisy));
-        parse_all(sink, &format!("pkg:golang/{}/n@v1#{}", noisy.replace("./", ""), noisy));
+        if n <= 129 {
+            parse_all(sink, &format!("pkg:t/n#{}", noisy));
+            parse_all(sink, &format!("pkg:golang/{}/n@v1#{}", noisy.replace("./", ""), noisy));
+        }
     }
     // as many qualifiers, in descending key order in the input
     for n in counts2 {
